@@ -409,6 +409,9 @@ def unpack_opargs_bytecode_310(code, opc):
             extended_arg = extended_arg_val(opc, arg) if op == opc.EXTENDED_ARG else 0
         else:
             arg = None
+            # Since 3.10 (bpo-45757) an instruction without operand ends an
+            # EXTENDED_ARG sequence
+            extended_arg = 0
         yield offset, op, arg
 
 
